@@ -8,12 +8,17 @@ TraceInit == v = InitVal /\ l = 1 /\ viol = {} /\ TLCSet(1, <<0, {}>>)
 Judge(ev, V) == viol' = IF Cardinality(viol) < 400 THEN viol \cup {<<ev.t, l, r>> : r \in V} ELSE viol
 Step(ev) ==
     CASE ev.e = "Init" -> v' = InitVal /\ UNCHANGED viol
-      [] ev.e = "Track" -> v' = AcceptEff(ev.n) /\ UNCHANGED viol
+      [] ev.e = "Track" -> v' = AcceptEff(ev.n) /\ Judge(ev, AcceptViol(ev.n))
       [] ev.e = "ConnClosed" -> v' = ClosedEff(ev.n) /\ Judge(ev, ClosedViol(ev.n, ev.g))
       [] ev.e = "CbStart" /\ ev.k = "request" -> v' = [v EXCEPT !.inHandler = @ \cup {ev.n}] /\ UNCHANGED viol
-      [] ev.e = "CbEnd" /\ ev.k = "request" -> v' = [v EXCEPT !.inHandler = @ \ {ev.n}] /\ UNCHANGED viol
-      [] ev.e = "PushStart" -> v' = [v EXCEPT !.inHandler = @ \cup {ev.n}] /\ UNCHANGED viol   \* sending: busy like a running handler
-      [] ev.e = "PushEnd" -> v' = [v EXCEPT !.inHandler = @ \ {ev.n}] /\ UNCHANGED viol
+      [] ev.e = "CbEnd" /\ ev.k = "request" -> v' = [v EXCEPT !.inHandler = @ \ {ev.n}, !.busyAtSweep = @ \ {ev.n}] /\ UNCHANGED viol
+      \* a server-side sender: the connection is busy (like one with a running handler) from the moment output is pending - the first
+      \* sendmsg of its Write has happened and bytes are left - not from the call of Write (until then it is legitimately idle)
+      [] ev.e = "PushStart" -> v' = [v EXCEPT !.pushFd = ev.n] /\ UNCHANGED viol
+      [] ev.e = "Sendmsg" /\ ev.g = "pusher" -> v' = (IF v.pushFd >= 0 THEN [v EXCEPT !.inHandler = @ \cup {v.pushFd}] ELSE v) /\ UNCHANGED viol
+      [] ev.e = "PushEnd" -> v' = [v EXCEPT !.inHandler = @ \ {ev.n}, !.busyAtSweep = @ \ {ev.n}, !.pushFd = -1] /\ UNCHANGED viol
+      [] ev.e = "FdOpen" /\ ev.k = "1" -> v' = OpenEff(ev.n) /\ UNCHANGED viol
+      [] ev.e = "Sweep" -> v' = SweepEff /\ UNCHANGED viol
       [] ev.e = "ShutdownCall" -> v' = CallEff /\ UNCHANGED viol
       [] ev.e = "ShutdownRet" -> v' = [v EXCEPT !.ret = ev.err] /\ Judge(ev, RetViol(ev.err))
       [] ev.e = "Tracked" -> Judge(ev, TrackedViol(ev.n, ev.m)) /\ UNCHANGED v
